@@ -840,3 +840,12 @@ func init() {
 		Assum: []string{"absent and empty values are equivalent (compared by re-encoding)", "ParseValidatorPowerRankKey on wrong-length input is a documented panic and not generated",
 			"DeliverTx/CheckTx on arbitrary bytes are covered by C11 and the FuzzDeliverTx target"}})
 }
+
+// jsonToTxBytes converts an amino-JSON StdTx into its length-prefixed binary encoding (fuzz seeds).
+func jsonToTxBytes(js string) ([]byte, error) {
+	var tx authtypes.StdTx
+	if err := simCdc.UnmarshalJSON([]byte(js), &tx); err != nil {
+		return nil, err
+	}
+	return simCdc.MarshalBinaryLengthPrefixed(tx)
+}
